@@ -318,7 +318,15 @@ func (c *Ctx) genMulti(kind string) outWriter {
 		var cs []string
 		for i := 0; i < n; i++ {
 			var sb strings.Builder
-			for l := c.Rng.Intn(4); l > 0; l-- {
+			nl := c.Rng.Intn(4)
+			if j > 0 && nl == 0 {
+				// only producer 0 writes chunks that BEGIN with a newline (the way echo writes a line: text, then "\n"):
+				// every other chunk begins with a letter of its producer, so the first byte of a chunk names its producer
+				// and the acceptor's search never has two candidates (with several producers writing bare newlines the
+				// backtracking search is exponential in their number)
+				nl = 1
+			}
+			for l := nl; l > 0; l-- {
 				sb.WriteByte(byte('a' + 2*j + c.Rng.Intn(2)))
 			}
 			switch c.Rng.Intn(4) {
